@@ -231,6 +231,13 @@ func (b *Browser) Do(r Req) *Exchange {
 		fmt.Fprintf(&buf, "%s: %s\r\n", h[0], h[1])
 		ex.ReqHdr.Add(h[0], h[1])
 	}
+	// a per-request marker that travels to the upstream: arrivals are attributed by it, so that two
+	// overlapping requests never claim each other's arrival
+	b.w.Log.mu.Lock()
+	b.w.reqSerial++
+	marker := fmt.Sprintf("r%d", b.w.reqSerial)
+	b.w.Log.mu.Unlock()
+	fmt.Fprintf(&buf, "X-Sim-Req: %s\r\n", marker)
 	if u.Scheme == "https" && !hasHeader(r.Headers, "X-Forwarded-Proto") {
 		// TLS is terminated by the load balancer in front of sso; it tells sso so.
 		buf.WriteString("X-Forwarded-Proto: https\r\n")
@@ -279,11 +286,15 @@ func (b *Browser) Do(r Req) *Exchange {
 	defer func() {
 		b.w.Log.End(ex)
 		for _, c := range b.w.Log.Since(ex.Seq+1, "") {
-			if c.Link == L2 || c.Link == L3 {
+			if (c.Link == L2 || c.Link == L3) && !c.Background {
 				ex.Children = append(ex.Children, c)
 			}
 		}
-		ex.Arrivals = b.w.Up.Since(arr0)
+		for _, a := range b.w.Up.Since(arr0) {
+			if a.Header.Get("X-Sim-Req") == marker {
+				ex.Arrivals = append(ex.Arrivals, a)
+			}
+		}
 		if b.w.Net.FiredOn("browser>") != fired0 {
 			ex.Injected = "net"
 		}
